@@ -2,6 +2,7 @@
  *
  *   pol cf <dir> <spec>            master policy: creator_file answer for objects under /c20/<dir>/
  *   pol vs <oid> <uid> <spec>      master policy: valid_seteuid answer for (object, uid); `*` wildcards, `-` = ""
+ *   pol root <name> | pol bb <name> master policy: get_root_uid() / get_bb_uid() answer this from now on (master reload)
  *   script <name> <op>;<op>..|-    ops run by create() of the object with that file name (`<path>` blueprint,
  *                                  `<path>#` its clones); `-` removes the script
  *   cfg [nobb] [noroot] [simul]    first line of a case: master without get_bb_uid() / get_root_uid(), simul_efun object
@@ -50,9 +51,9 @@ static int c20_cmd (char *line)
         vh_out ("r !harness");
       return 1;
     }
-  if (!strcmp (tok[0], "pol") && n >= 4 && n <= 5)
+  if (!strcmp (tok[0], "pol") && n >= 3 && n <= 5)
     {
-      char *args[4] = { tok[1], tok[2], tok[3], n == 5 ? tok[4] : (char *) "" };
+      char *args[4] = { tok[1], tok[2], n >= 4 ? tok[3] : (char *) "", n == 5 ? tok[4] : (char *) "" };
       if (vh_apply_str (master_ob, "set_pol", 4, args, 0, 0))
         vh_out ("r !harness");
       return 1;
